@@ -378,6 +378,7 @@ func main() {
 		}
 	})
 	ctx.Jobs("manytracks", 1, func(int) { manyTracks() })
+	ctx.Jobs("huge-alien", 1, func(int) { hugeAlien() })
 	ctx.Jobs("value-sweeps", 1, func(int) { valueSweeps() })
 	ctx.Jobs("two-readers", 1, func(int) { twoReaders() })
 	ctx.Sample(map[string]interface{}{"file": "MThd fmt1 2 tracks div 96 | XFIH(5) | MTrk: 0:NoteOn0 128:NoteOn0~ 0:EOT | MTrk filler", "meaning": "alien chunk before the first track, running status"})
@@ -552,6 +553,43 @@ func twoReaders() {
 	}
 }
 
+// zeros is an endless source of zero bytes.
+type zeros struct{}
+
+func (zeros) Read(p []byte) (int, error) {
+	for i := range p {
+		p[i] = 0
+	}
+	return len(p), nil
+}
+
+// hugeAlien: an unknown chunk whose length has the top bit set (2 GiB and
+// more), served from a synthetic source, in front of the only track.
+func hugeAlien() {
+	trk := refsmf.Chunk("MTrk", []byte{0x00, 0x90, 0x3C, 0x40, 0x00, 0xFF, 0x2F, 0x00})
+	for _, ln := range []uint32{0x7FFFFFFF, 0x80000000, 0x80000001, 0xFFFFFFF0} {
+		hd := append(refsmf.Header(0, 1, 96), 'X', 'F', 'I', 'H', byte(ln>>24), byte(ln>>16), byte(ln>>8), byte(ln))
+		src := io.MultiReader(bytes.NewReader(hd), io.LimitReader(zeros{}, int64(ln)), bytes.NewReader(trk))
+		ctx.Eval()
+		ctx.Add("huge_alien_chunks", 1)
+		var got *smf.SMF
+		var err error
+		c := engine.Catch(func() { got, err = smf.ReadFrom(src) })
+		what := ""
+		switch {
+		case c.Panicked:
+			what = "panicked: " + c.Value
+		case err != nil:
+			what = "error: " + err.Error()
+		case len(got.Tracks) != 1 || len(got.Tracks[0]) != 2 || !bytes.Equal(got.Tracks[0][0].Message, []byte{0x90, 0x3C, 0x40}):
+			what = fmt.Sprintf("%d tracks, first track %v", len(got.Tracks), got.Tracks)
+		}
+		if what != "" {
+			ctx.Violation("decode:huge-unknown-chunk", map[string]interface{}{"kind": "huge-alien", "length": ln, "what": fmt.Sprintf("unknown chunk of %d bytes before the track: %s", ln, what)})
+		}
+	}
+}
+
 // manyTracks: boundary files around the int16 track counter.
 func manyTracks() {
 	for _, n := range []int{32766, 32767, 32768, 32769, 65535} {
@@ -576,6 +614,10 @@ func manyTracks() {
 
 func replay() {
 	m := ctx.LoadReplay()
+	if m["kind"] == "huge-alien" {
+		hugeAlien()
+		ctx.Finish("replay")
+	}
 	if m["kind"] == "manytracks" {
 		manyTracks()
 		ctx.Finish("replay")
